@@ -125,6 +125,11 @@ package dsl
 // included, writes a number through `omitempty` (encoding/json would leave out 0 exactly like an absent value). Lengths
 // are pointers for that reason.
 //@ json-numbers C04 package
+// docs/reference/protocol-schema.md: every entry of "types" is wrapped in its kind - {"record": ...}, {"enum": ...},
+// {"flags": ...}, {"alias": ...}. The wrapper is what tells an enum from a flags type with the same base and values (NDJSON
+// writes one as a string, the other as an array of strings). It is written by (*TypeDefinitions).MarshalJSON, so the
+// schema's list has to be declared with that type.
+//@ json-marshaler C04 dsl.ProtocolSchema.Types=dsl.TypeDefinitions
 //@ observe-args encoding/json.Marshal
 // A reference is written by its (qualified) name; the compact spelling - the bare name - only when it carries no type
 // arguments (`Image<float>` and `Image<double>` are different encodings and must not share a schema text).
